@@ -79,7 +79,7 @@ def dominating_edges(cfg, node):
             e = (b.idx, lab, dst)
             # several labels may share a target: the edge set to the same dst counts as one
             same = [(b.idx, l2, d2) for l2, d2 in cfg.succ[b.idx] if d2 == dst]
-            if node not in cfg.reach(0, blocked_edges=set(same)) and node in cfg.reach(0):
+            if node not in cfg.reach_entry_sens(blocked_edges=set(same)) and node in cfg.reach(0):
                 out.append(e)
     return out
 
